@@ -288,7 +288,7 @@ pub fn run(ctx: &mut Ctx, _name: &str) {
             let _ = rt.block_on(scn.coord.inject_batch(&scn.gid, InjectBatchRequest { events_text: text }));
             let s2 = log.lock().unwrap().first().and_then(|(id, _)| scn.id2name.get(id).cloned()).unwrap_or_else(|| "lost".into());
             ctx.count(if lit.contains('e') { "fkey.exponent_literal" } else { "fkey.plain_literal" });
-            let sig = lit.trim_start_matches('-').split('e').next().unwrap_or("").replace('.', "").trim_start_matches('0').len();
+            let sig = lit.trim_start_matches('-').split('e').next().unwrap_or("").replace('.', "").trim_start_matches('0').len(); // written digits
             ctx.count(if sig > 15 { "fkey.more_than_15_digits" } else { "fkey.up_to_15_digits" });
             if s1 != s2 { ctx.count("fkey.paths_disagree"); }
             ctx.case(&format!("fkey {}", lit), &format!("{},{}", s1, s2));
